@@ -16,7 +16,7 @@
 From Coq Require Import String List ZArith NArith Bool.
 Import ListNotations.
 From Selfies Require Import Base Generated Atoms Grammar Decoder PySet Matching Smiles Kekulize Encoder
-  IndexSpec IndexCode Reader RoundTrip EncoderFacts PureFacts EncHyp EncGood EncAttr EncFaithful.
+  IndexSpec IndexCode Reader RoundTrip EncoderFacts PureFacts EncHyp EncGood EncAttr EncFaithful EncOrd.
 Local Open Scope string_scope.
 
 Definition C03_full_statement : Prop :=
@@ -41,6 +41,26 @@ Theorem C03_symbols_faithful_partial : forall T smiles strict x maps ts,
     Forall2 (fun toks ms => Walked (reads_back ts) m toks (map ent ms)) tss mss.
 Proof. exact encoder_symbols_faithful. Qed.
 
+(* bond half, chain bonds, at symbol level (proofs/EncOrd.v): the first symbol of a fragment has no bond prefix; for every
+   other atom the prefix of its symbol agrees in order with the bond written before the atom's token: an explicit
+   '-' '=' '#' '/' '\' is reproduced with the same order; a bond written ':' or left implicit is printed single or double
+   (implicit between non-aromatic atoms: single, by the first disjunct).  Through the reader, kekulize (only aromatic
+   orders change: C05) and the walk.  Ring-closure bonds are not covered. *)
+Theorem C03_chain_bond_orders_faithful_partial : forall T smiles strict attribute x maps ts,
+  encoder T smiles strict attribute = Ok (x, maps) -> tokenize_smiles smiles = Ok ts ->
+  exists m tss mss,
+    x = join (lit ".") (map (@concat N) tss) /\
+    maps = filter (fun a => match am_token a with [] => false | _ => true end) (concat mss) /\
+    Forall2 (fun toks ms => Walked (order_back (m_roots m) ts) m toks (map ent ms)) tss mss.
+Proof. exact encoder_orders_faithful. Qed.
+
+Example C03_chain_bond_orders_example :
+  match encoder default_constraints (lit "C=CC#N.c1ccccc1O") true false with
+  | Ok (x, _) => str_eqb x (lit "[C][=C][C][#N].[C][=C][C][=C][C][=C][Ring1][=Branch1][O]")
+  | Err _ => false end = true.
+Proof. vm_compute. reflexivity. Qed.
+
 Print Assumptions C03_index_arithmetic_partial.
+Print Assumptions C03_chain_bond_orders_faithful_partial.
 Print Assumptions C03_three_symbols_partial.
 Print Assumptions C03_symbols_faithful_partial.
